@@ -73,6 +73,11 @@ GUARD = {"calls": 0, "faults": 0, "last_fault": None}
 _BITS = {}
 
 
+class SolverFault(BaseException):
+    """raised out of the wrapped optimize() at the first invalid answer: the case is discarded anyway, and an
+    invalid 'OPTIMAL' answer inside the library's `while True` cut loop could otherwise keep it spinning"""
+
+
 def _bits(n):
     if n not in _BITS:
         _BITS[n] = list(itertools.product((0.0, 1.0), repeat=n))
@@ -155,9 +160,11 @@ def install_guard(tol=1e-9, max_vars=12):
             if fault:
                 GUARD["faults"] += 1
                 GUARD["last_fault"] = fault
-        except Exception as e:  # the guard itself must never change behaviour
+        except Exception as e:  # a failure of the guard itself is reported as a fault, never as a verdict
             GUARD["faults"] += 1
             GUARD["last_fault"] = "guard error " + repr(e)
+        if GUARD["faults"]:
+            raise SolverFault(GUARD["last_fault"])
         return st
 
     mip.Model.optimize = guard
@@ -265,6 +272,8 @@ def gen(rng, i, tier):
         posj = [j for j in range(n) if costs[j] > 0]
         keep = rng.choice(posj)
         init = [j for j in init if j != keep]
+    if algo == 2 and n > 7 and not any(ballots):
+        algo = 1        # nobody votes: every feasible subset is optimal (up to 2^n solver calls) -- keep those small
     order = list(range(n))
     rng.shuffle(order)
     return {"costs": [pb.qs(c) for c in costs], "budget": pb.qs(b), "kind": kind, "sat": sat, "ballots": ballots,
@@ -287,18 +296,19 @@ def impl(case):
         install_guard()
         GUARD.update(calls=0, faults=0, last_fault=None)
     out = {}
-    sp = prof.as_sat_profile(sat_class)
-    out["score"] = [core.qj(sp.total_satisfaction_project(projs[j])) for j in range(n)]
-    if case.get("solver") and GUARD["faults"]:
-        out["solver_fault"] = GUARD["last_fault"]
+    try:
+        sp = prof.as_sat_profile(sat_class)
+        out["score"] = [core.qj(sp.total_satisfaction_project(projs[j])) for j in range(n)]
+        out["enum"] = pb.ranks(list(inst))
+        init = [projs[j] for j in case["init"]]
+        algo = case["algo"]
+        kw = {"sat_profile": sp} if case["via"] == "profile" else {"sat_class": sat_class}
+        res = max_additive_utilitarian_welfare(
+            inst, prof, resoluteness=(algo != 2), initial_budget_allocation=init,
+            inner_algo=MaxAddUtilWelfareAlgo.PRIMAL_DUAL if algo == 0 else MaxAddUtilWelfareAlgo.ILP_SOLVER, **kw)
+    except SolverFault as e:
+        out["solver_fault"] = str(e)
         return out
-    out["enum"] = pb.ranks(list(inst))
-    init = [projs[j] for j in case["init"]]
-    algo = case["algo"]
-    kw = {"sat_profile": sp} if case["via"] == "profile" else {"sat_class": sat_class}
-    res = max_additive_utilitarian_welfare(
-        inst, prof, resoluteness=(algo != 2), initial_budget_allocation=init,
-        inner_algo=MaxAddUtilWelfareAlgo.PRIMAL_DUAL if algo == 0 else MaxAddUtilWelfareAlgo.ILP_SOLVER, **kw)
     if algo == 2:
         out["out"] = [pb.ranks(a) for a in res]
     else:
@@ -349,7 +359,7 @@ def stats(cases, obs):
          "fractional_scores": 0, "zero_cost_project": 0, "zero_cost_with_supporters": 0,
          "zero_cost_without_supporters": 0, "zero_profit_project": 0, "nonempty_init": 0, "multiprofile": 0,
          "tied_optima>=2": 0, "greedy_prefix_not_optimal": 0, "budget_is_subset_sum": 0,
-         "equal_efficiency_pair": 0, "nproj_hist": {}, "sat_hist": {}, "kind_hist": {}, "irresolute_sizes": {}}
+         "equal_efficiency_pair": 0, "pd_nothing_to_decide": 0, "nproj_hist": {}, "sat_hist": {}, "kind_hist": {}, "irresolute_sizes": {}}
     for c, o in zip(cases, obs):
         if not isinstance(o, dict) or "out" not in o:
             continue
@@ -363,6 +373,7 @@ def stats(cases, obs):
         d["zero_cost_with_supporters"] += any(cs[j] == 0 and sc[j] > 0 for j in und)
         d["zero_cost_without_supporters"] += any(cs[j] == 0 and sc[j] == 0 for j in und)
         d["zero_profit_project"] += any(cs[j] > 0 and sc[j] == 0 for j in und)
+        d["pd_nothing_to_decide"] += c["algo"] == 0 and not any(cs[j] > 0 for j in und)
         d["nonempty_init"] += bool(c["init"])
         d["multiprofile"] += bool(c["multi"])
         comp = _completions(c, o)
@@ -392,6 +403,34 @@ def stats(cases, obs):
             k = str(len(o["out"]))
             d["irresolute_sizes"][k] = d["irresolute_sizes"].get(k, 0) + 1
     return d
+
+
+def py_oracle(case, o):
+    """fallback used by the driver only when the Coq side does not build: the same judgement in Python"""
+    if not isinstance(o, dict) or "out" not in o:
+        return 0
+    comp = _completions(case, o)
+    if not comp:
+        return 0
+    costs = [pb.F(c) for c in case["costs"]]
+    score = [pb.F(x) for x in o["score"]]
+    mx = max(w for w, _ in comp)
+    for W in o["out"]:
+        if len(set(W)) != len(W) or any(not 0 <= j < len(costs) for j in W):
+            return 1
+        if sum((costs[j] for j in W), Fraction(0)) > pb.F(case["budget"]):
+            return 2
+        if not set(case["init"]) <= set(W):
+            return 3
+        if sum((score[j] for j in W), Fraction(0)) < mx:
+            return 4
+    if case["algo"] == 2:
+        want = sorted(sorted(list(S) + case["init"]) for w, S in comp if w == mx)
+        if sorted(sorted(W) for W in o["out"]) != want:
+            return 5
+    elif len(o["out"]) != 1:
+        return 7
+    return 0
 
 
 def describe(case, o, code):
